@@ -19,6 +19,7 @@
 
 /* INTERNAL */
 TickitWindow* tickit_window_new_root2(Tickit *t, TickitTerm *term);
+void tickit_window_orphan_root(TickitWindow *win);
 
 struct TickitWatch {
   TickitWatch *next;
@@ -371,6 +372,10 @@ static void invoke_watch(TickitWatch *watch, TickitEventFlags flags, void *info)
 
 static void tickit_destroy(Tickit *t)
 {
+  /* a root window the application still references outlives this instance */
+  if(t->rootwin)
+    tickit_window_orphan_root(t->rootwin);
+
   if(t->done_setup)
     teardownterm(t);
 
